@@ -490,5 +490,46 @@ func (i *Inst) runPairing(s *MtScript, tw *TraceWriter, rng *rand.Rand) error {
 		outB.Close()
 		time.Sleep(20 * time.Millisecond)
 	}
+	// websocket clients that send NO connection identifier at all, two at a time and a third after they have gone: each
+	// is a tunnel of its own and reads the answers to its own requests (told apart by the version bytes they are echoed)
+	wsHs := func(w *wsraw.WS, major, minor byte) (own, foreign bool) {
+		if w == nil {
+			return false, false
+		}
+		w.WriteBinary(tsgu.Handshake(major, minor, 0, caps))
+		_, b, err := w.ReadMessage(3 * time.Second)
+		if err != nil {
+			return false, false
+		}
+		d := tsgu.Decode(b)
+		own = d.Type == 2 && d.Major == int(major) && d.Minor == int(minor)
+		return own, !own
+	}
+	for round := 0; round < 2; round++ {
+		dA := i.dialOpts(pc.OpenOpts(), "")
+		wa, _, errA := wsraw.DialWS(dA)
+		time.Sleep(30 * time.Millisecond)
+		wb, _, errB := wsraw.DialWS(dA)
+		time.Sleep(30 * time.Millisecond)
+		if errA != nil || errB != nil || wa == nil || wb == nil {
+			return fmt.Errorf("pairing no-identifier: cannot open the websocket connections (%v %v)", errA, errB)
+		}
+		ownB, forB := wsHs(wb, byte(20+round), 2)
+		tw.Line(M{"ev": "iso", "dir": "pair-noid-ws-second", "own": ownB, "foreign": forB, "n": 0})
+		ownA, forA := wsHs(wa, byte(10+round), 1)
+		// (what the second client's exchange may have put on the first client's connection is read by the first one's exchange)
+		tw.Line(M{"ev": "iso", "dir": "pair-noid-ws-first", "own": ownA, "foreign": forA, "n": 0})
+		wa.Close()
+		wb.Close()
+		time.Sleep(50 * time.Millisecond)
+		wc, _, errC := wsraw.DialWS(dA)
+		if errC != nil || wc == nil {
+			return fmt.Errorf("pairing no-identifier: cannot open the third websocket connection (%v)", errC)
+		}
+		ownC, forC := wsHs(wc, byte(30+round), 3)
+		tw.Line(M{"ev": "iso", "dir": "pair-noid-ws-after", "own": ownC, "foreign": forC, "n": 0})
+		wc.Close()
+		time.Sleep(30 * time.Millisecond)
+	}
 	return nil
 }
